@@ -795,7 +795,32 @@ def _unroll_table_loops(tree: ast.Module, known: set) -> None:
                         and not any(isinstance(x, ast.Name) and isinstance(x.ctx, (ast.Store, ast.Del)) and x.id in tnames for x in inner) \
                         and not any(isinstance(x, ast.Name) and x.id in tnames for r_ in body[i + 1:] for x in ast.walk(r_)) \
                         and (len(tnames) == 1 or all(isinstance(e, (ast.Tuple, ast.List)) and len(e.elts) == len(tnames) for e in elts)):
-                    for e in elts:
+                    # locals that live inside one iteration only (bound in the body, read nowhere outside the loop) get a name of their own in each copy,
+                    # so that each stays a single-assignment temporary
+                    bound_in = {x.id for x in inner if isinstance(x, ast.Name) and isinstance(x.ctx, ast.Store)} - set(tnames)
+                    inside_ids = {id(x) for x in inner}
+                    private = {nm for nm in bound_in if not any(isinstance(x, ast.Name) and x.id == nm and id(x) not in inside_ids for x in ast.walk(fn))}
+                    # ... and only those whose first occurrence in the body is a store (not carried over from the previous iteration)
+                    first_ctx: Dict[str, Any] = {}
+
+                    def _order(node):
+                        # evaluation order within a statement: value before targets
+                        if isinstance(node, ast.Assign):
+                            yield from _order(node.value)
+                            for t_ in node.targets:
+                                yield from _order(t_)
+                            return
+                        if isinstance(node, ast.Name):
+                            yield node
+                            return
+                        for c_ in ast.iter_child_nodes(node):
+                            yield from _order(c_)
+                    for b_ in st.body:
+                        for x in _order(b_):
+                            if x.id in private and x.id not in first_ctx:
+                                first_ctx[x.id] = x.ctx
+                    private = {nm for nm in private if isinstance(first_ctx.get(nm), ast.Store)}
+                    for k_, e in enumerate(elts):
                         vals = [e] if len(tnames) == 1 else list(e.elts)
                         m = dict(zip(tnames, vals))
 
@@ -803,6 +828,8 @@ def _unroll_table_loops(tree: ast.Module, known: set) -> None:
                             def visit_Name(self, n: ast.Name):
                                 if n.id in m and isinstance(n.ctx, ast.Load):
                                     return ast.copy_location(copy.deepcopy(m[n.id]), n)
+                                if n.id in private:
+                                    return ast.copy_location(ast.Name(id=f"{n.id}__u{k_}", ctx=n.ctx), n)
                                 return n
                         out.extend(S().visit(copy.deepcopy(b_)) for b_ in st.body)
                     continue
